@@ -615,7 +615,10 @@ impl CodegenContext {
                                     bank: Some(name.clone()),
                                     ..Default::default()
                                 };
-                                self.segments.insert(name, Segment::new(segment_opts));
+                                self.segments.insert(name.clone(), Segment::new(segment_opts));
+                                if self.current_segment.is_none() {
+                                    self.current_segment = Some(name);
+                                }
                             }
                         }
                         "segment" => {
